@@ -30,7 +30,24 @@ def snapshot():
                     out["%s.%s.%s" % (name, k, ak)] = _enc(av)
                 continue
             out["%s.%s" % (name, k)] = _enc(v)
+    out["simple_ddl_parser.parsetab:tables"] = tables_digest()
     return out
+
+
+def tables_digest():
+    """Cheap fingerprint of the LALR tables shared by every parser of the process (the imported table data module)."""
+    import hashlib
+    import pickle
+    m = sys.modules.get("simple_ddl_parser.parsetab")
+    if m is None:
+        return None
+    h = hashlib.sha1()
+    for name in ("_lr_action", "_lr_goto"):
+        try:
+            h.update(pickle.dumps(getattr(m, name, None), protocol=4))
+        except Exception:  # noqa
+            h.update(b"?")
+    return h.hexdigest()
 
 
 def _enc(v):
